@@ -218,6 +218,12 @@ def split_not(d):
     return d, neg
 
 
+def if_parts(n):
+    """(condition without leading negations, node taken when it holds, node taken when it does not) of an `if` node"""
+    d, neg = split_not(desc(n["c"]))
+    return (d, n.get("e"), n["t"]) if neg else (d, n["t"], n.get("e"))
+
+
 class Limit(Exception):
     pass
 
